@@ -5996,7 +5996,16 @@ func (interpreter *Interpreter) GetCompositeValueFunctions(v *CompositeValue) *F
 	}
 
 	compositeCodes := sharedState.typeCodes.CompositeCodes
-	return compositeCodes[typeID].CompositeFunctions
+	compositeCode, ok := compositeCodes[typeID]
+	if !ok && v.Location != nil {
+		// The program which declares the composite type might not have been loaded yet,
+		// e.g. when the value was loaded from storage through a supertype (AnyResource, an interface, etc.)
+		// and its declaring program is not imported by the current program.
+		// Loading the program declares its composite types, i.e. populates the composite codes.
+		interpreter.EnsureLoaded(v.Location)
+		compositeCode = compositeCodes[typeID]
+	}
+	return compositeCode.CompositeFunctions
 }
 
 func (interpreter *Interpreter) GetCompositeType(
